@@ -35,7 +35,7 @@ PROPS["C11"].update(
 
 # properties not claimed yet (filled while the framework is being built)
 NOT_APPLICABLE = {("C%02d" % i): "monitor not built yet (work in progress; see DESIGN.md for the plan)" for i in range(1, 21)}
-HOOK_COMMITS = ["1fddc2d"]
+HOOK_COMMITS = ["1fddc2d", "3ef5cae"]
 
 PROPS["C12"] = dict(
     race=True,
@@ -385,4 +385,28 @@ PROPS["C07"] = dict(
                 "checked online against presence, monotonicity and snapshot oracles; blocking is decided logically (readers must finish while the "
                 "writer is provably still inside the source)."),
     level_note="Trusted: the Go race detector (reports only what the workload reaches); the scripted sources; single explicit writer so the sequence of published states is known.",
+)
+
+PROPS["C08"] = dict(
+    race=True,
+    shards={"quick": 8, "thorough": 16},
+    gomaxprocs=6,
+    level="exploration",
+    design_ref="DESIGN.md §2 C08",
+    technique="offline checker over a recorded event log (verif taps + client-boundary marks + hook log + publisher request log) of seeded, delay-injected announce/sync schedules; quiescence decided logically",
+    rule=("1..4 publishers with growing chains, one announcer goroutine each (bursts of 1..6 announcements of monotone heads with seeded gaps), "
+          "MaxAsyncConcurrency in {unset,1,2,k-1,k,k+1}, seeded delays at the verif tap points (after receiving, after the swap, goroutine entry, "
+          "after the locks, after taking the pending message, ...) and seeded holds of block requests at the publisher front; in the second "
+          "sub-check also explicit SyncAdChain goroutines on the same publishers. Quiescence = every accepted announcement was received by the "
+          "watcher, spawned == entered == exited handling goroutines, no open request. Offline: sync.enter/exit never nest per publisher; "
+          "async.sem..async.exit occupancy <= maximum; every hook call lies inside exactly one sync of its publisher, in chain order; every "
+          "advertisement after the baseline is reported exactly once; no block requested twice; latest-synced == last announced head or an error "
+          "notification. distinct_nontrivial = run configurations x (coalescing seen, spawn-while-running seen); distinct interleaving "
+          "signatures are counted separately."),
+    floors={"quick": {"coalesced_announcements": 100, "spawn_while_previous_sync_running": 20, "syncs_observed": 300, "runs_reaching_the_concurrency_limit": 3}},
+    max_counters=["max_concurrent_announce_syncs"],
+    watchdog_s={"quick": 900, "thorough": 7200},
+    level_text=("Exploration over schedules: many short seeded runs with injected delays; every run's full event log is checked offline for mutual "
+                "exclusion per publisher, the concurrency bound, exactly-once reporting and no lost announcement at a logically detected quiescent point."),
+    level_note="Trusted: the verif taps are placed where DESIGN.md says and record with one logical clock; the race detector's reports are recorded as diagnostics only.",
 )
